@@ -59,6 +59,12 @@ type env struct {
 	baseN    int
 	ids      *node.Ids
 	refs     map[string]node.Obs
+	// large-class cases (Pebble v2 store): the classes a block of the script declares at once, and the block numbers whose
+	// states are asked about them
+	pebble  bool
+	big     []*gen.SierraInfo
+	bigNums []uint64
+	bigBlk  *gen.Block
 }
 
 func (e *env) freshDB() *memory.Database {
@@ -69,9 +75,22 @@ func (e *env) freshDB() *memory.Database {
 	return d
 }
 
-func observe(n *node.Node, ids *node.Ids) node.Obs {
+// freshStore is the store a run of the script starts on: the in-memory store (a copy of the base, if any) or, in the
+// large-class cases, an empty Pebble v2 store in a scratch directory; done closes and removes it.
+func (e *env) freshStore() (s db.KeyValueStore, done func()) {
+	if e.pebble {
+		return pebbleScratch()
+	}
+	return e.freshDB(), func() {}
+}
+
+func (e *env) observe(n *node.Node) node.Obs {
+	ids := e.ids
 	o := n.Observe(ids)
 	n.ObserveEvents(o, ids)
+	if len(e.big) > 0 {
+		observeBig(n, o, e.big, e.bigNums)
+	}
 	// state roots recomputed from the tries
 	if sr, closer, err := n.BC.HeadState(); err == nil {
 		if ct, err := sr.ContractTrie(); err == nil {
@@ -92,7 +111,9 @@ func (e *env) ref(w world) node.Obs {
 	if o, ok := e.refs[w.key()]; ok {
 		return o
 	}
-	n := node.New(e.newState, e.freshDB(), e.u.Net)
+	inner, done := e.freshStore()
+	defer done()
+	n := node.New(e.newState, inner, e.u.Net)
 	for _, b := range w.blocks[e.baseN:] {
 		if err := n.Store(b); err != nil {
 			stats.HarnessError("reference node: %v", err)
@@ -103,7 +124,7 @@ func (e *env) ref(w world) node.Obs {
 			stats.HarnessError("reference node l1: %v", err)
 		}
 	}
-	o := observe(n, e.ids)
+	o := e.observe(n)
 	e.refs[w.key()] = o
 	return o
 }
@@ -144,6 +165,14 @@ func drawScript(rt *rapid.T, e *env, c *stats.Case) ([]op, []world) {
 	var worlds []world
 	var l1 *core.L1Head
 	n := rapid.IntRange(4, 10).Draw(rt, "nops")
+	// large-class cases: the bigAt-th store of the script (mostly the first) declares every large class of the case that the
+	// chain does not hold yet (the generator may have declared one of them alone in an earlier block, or in a fork after a
+	// revert); the scripts are kept shorter, every run of them moves tens of megabytes
+	bigAt, stores := -1, 0
+	if len(e.big) > 0 {
+		n = rapid.IntRange(3, 7).Draw(rt, "nopsLarge")
+		bigAt = rapid.SampledFrom([]int{0, 0, 1}).Draw(rt, "largeAtStore")
+	}
 	// skeleton (half of the cases on the 8188-block base): stores that reach or cross the 8192 window boundary, an optional
 	// graceful restart on the way, an ungraceful restart, then ops that are the FIRST access of the lazily initialised
 	// running event filter (the initializer itself reads and, across the boundary, writes the database)
@@ -171,6 +200,9 @@ func drawScript(rt *rapid.T, e *env, c *stats.Case) ([]op, []world) {
 		} else {
 			kind = rapid.SampledFrom([]string{"store", "store", "store", "store", "revert", "revert", "l1head", "snapshot", "graceful", "ungraceful"}).Draw(rt, "op")
 		}
+		if bigAt >= 0 && e.bigBlk == nil && i == n-1 {
+			kind = "store" // the script has not reached the large block yet
+		}
 		if kind == "revert" && ch.Height() <= e.baseN {
 			kind = "store"
 		}
@@ -180,7 +212,18 @@ func drawScript(rt *rapid.T, e *env, c *stats.Case) ([]op, []world) {
 		o := op{kind: kind}
 		switch kind {
 		case "store":
-			o.blk = ch.Next(rt)
+			if bigAt >= 0 && e.bigBlk == nil && (stores == bigAt || i == n-1) {
+				b := ch.Draw(rt)
+				nd := declareBig(b, e.u, e.big)
+				ch.Blocks = append(ch.Blocks, b)
+				o.blk, e.bigBlk = b, b
+				e.bigNums = append(e.bigNums, b.Num())
+				c.Labelf("large-classes-in-one-block:%d", nd)
+				c.Fp("large block %d declares %d large classes", b.Num(), nd)
+			} else {
+				o.blk = ch.Next(rt)
+			}
+			stores++
 			e.ids.AddBlock(o.blk)
 		case "revert":
 			ch = ch.Fork(ch.Height() - 1)
@@ -203,6 +246,19 @@ func runCase(rt *rapid.T, c *stats.Case) {
 		e.baseN = 8188
 		e.ids.MinNumber = 8184
 		c.Label("base-8188")
+	} else if rapid.IntRange(0, 3).Draw(rt, "largeClasses") == 0 {
+		// SIZE OF THE ATOMIC UNIT: a quarter of the other cases run on a real Pebble v2 store and contain a block that declares
+		// 2-4 classes of 3.5-3.9 MB each, so that the one batch of its Store holds 7-15 MB (db.DefaultBatchSize is 10 MiB)
+		e.pebble = true
+		pool := bigClassPool()
+		nbig := rapid.SampledFrom([]int{3, 4, 3, 4, 2}).Draw(rt, "nLarge")
+		first := rapid.IntRange(0, len(pool)-1).Draw(rt, "firstLarge")
+		for j := 0; j < nbig; j++ {
+			e.big = append(e.big, pool[(first+j)%len(pool)])
+		}
+		// the generator sees them as ordinary declarable classes (deploys, replacements, CASM-hash migrations use them too)
+		u.Sierra = append(append([]*gen.SierraInfo{}, u.Sierra...), e.big...)
+		c.Label("store-pebblev2+large-classes")
 	}
 	for _, s := range u.Sierra[:2] {
 		e.ids.Classes = append(e.ids.Classes, s.Hash)
@@ -221,7 +277,9 @@ func runCase(rt *rapid.T, c *stats.Case) {
 		return worlds[i-1]
 	}
 	// ---- uninterrupted run: count commits, record commit range per op
-	fs := fault.New(e.freshDB())
+	inner0, done0 := e.freshStore()
+	defer done0()
+	fs := newFstore(inner0)
 	n0 := node.New(e.newState, fs, u.Net)
 	commitsAfter := make([]int, len(ops))
 	for i, o := range ops {
@@ -231,12 +289,29 @@ func runCase(rt *rapid.T, c *stats.Case) {
 		commitsAfter[i] = fs.Commits
 	}
 	W := fs.Commits
-	final := observe(n0, e.ids)
+	final := e.observe(n0)
 	if d := node.Diff(final, e.ref(worlds[len(ops)-1]), 5); len(d) > 0 {
 		c.Violation("uninterrupted-run-differs-from-reference", "node after the uninterrupted script differs from a node that stored the final chain directly:\n%v", d)
 	}
+	done0()
+	if e.pebble {
+		switch {
+		case fs.MaxBatchBytes > 12<<20:
+			c.Label("largest-commit:>12MiB")
+		case fs.MaxBatchBytes > db.DefaultBatchSize:
+			c.Label("largest-commit:10-12MiB")
+		default:
+			c.Label("largest-commit:<10MiB")
+		}
+	}
 	if W == 0 {
 		return
+	}
+	firstCommitOf := func(i int) int {
+		if i == 0 {
+			return 1
+		}
+		return commitsAfter[i-1] + 1
 	}
 	opOf := func(k int) int { // op during which commit k happens
 		for i, ca := range commitsAfter {
@@ -265,6 +340,18 @@ func runCase(rt *rapid.T, c *stats.Case) {
 	} else {
 		nk := min(W, 3)
 		seen := map[int]bool{}
+		if e.pebble {
+			nk = min(W, 1) // plus the store of the large block, plus the first commit after the last restart
+		}
+		// always include the store of the block that declares the large classes
+		for i, o := range ops {
+			if o.kind == "store" && o.blk == e.bigBlk && !seen[commitsAfter[i]] {
+				seen[commitsAfter[i]] = true
+				ks = append(ks, commitsAfter[i])
+				nk++
+				c.Label("fault-at-large-block-store")
+			}
+		}
 		// always include the stores of the last block of a bloom window and of the first block of the next one
 		for i, o := range ops {
 			if o.kind == "store" && (o.blk.Num()%8192 == 8191 || (o.blk.Num()%8192 == 0 && o.blk.Num() > 0)) && !seen[commitsAfter[i]] {
@@ -294,10 +381,20 @@ func runCase(rt *rapid.T, c *stats.Case) {
 	for _, k := range ks {
 		i := opOf(k)
 		c.Info("fault-points")
-		// ================= (a) crash after commit k
-		{
-			fs := fault.New(e.freshDB())
-			fs.CrashAfter = k
+		// ================= (a) crash after commit k; (a') on the Pebble store also: crash on the way INTO commit k (the batch
+		// holds everything, Write is never called; the image is read back from the real store)
+		crash := func(onTheWayIn bool) {
+			inner, done := e.freshStore()
+			defer done()
+			fs := newFstore(inner)
+			when := "after"
+			if onTheWayIn {
+				fs.CrashBefore = k
+				when = "on the way into (batch complete, never written)"
+				c.Label("crash-on-the-way-into-a-commit")
+			} else {
+				fs.CrashAfter = k
+			}
 			nd := node.New(e.newState, fs, u.Net)
 			for j := 0; j <= i && !fs.Crashed; j++ {
 				_ = apply(nd, ops[j])
@@ -305,12 +402,17 @@ func runCase(rt *rapid.T, c *stats.Case) {
 			if !fs.Crashed || fs.Image == nil {
 				stats.HarnessError("crash point %d of %d not reached", k, W)
 			}
+			defer fs.ReleaseImage()
+			done()
 			img := node.New(e.newState, fs.Image, u.Net) // fresh process: fresh caches, filter, floor
-			got := observe(img, e.ids)
+			got := e.observe(img)
 			wb, wa := before(i), worlds[i]
 			db_, da := node.Diff(got, e.ref(wb), 4), node.Diff(got, e.ref(wa), 4)
 			if len(db_) > 0 && len(da) > 0 {
-				c.Violation("crash-image-inconsistent", "crash after commit %d (during op %d %s, %s backend): restarted node is neither the chain before the op nor after it.\n vs before: %v\n vs after: %v", k, i, ops[i], img.Backend(), db_, da)
+				c.Violation("crash-image-inconsistent", "crash %s commit %d (during op %d %s, %s backend): restarted node is neither the chain before the op nor after it.\n vs before: %v\n vs after: %v", when, k, i, ops[i], img.Backend(), db_, da)
+			}
+			if onTheWayIn && k == firstCommitOf(i) && len(db_) > 0 {
+				c.Violation("effects-visible-without-commit", "crash on the way into commit %d, the first commit of op %d %s (%s backend): nothing of the op was committed, but the restarted node differs from the chain before the op:\n%v", k, i, ops[i], img.Backend(), db_)
 			}
 			reached := wb
 			next := i
@@ -327,13 +429,19 @@ func runCase(rt *rapid.T, c *stats.Case) {
 					c.Violation("op-failed-after-recovery", "after a crash at commit %d (op %d %s) and restart, op %d %s failed: %v", k, i, ops[i], j, ops[j], err)
 				}
 			}
-			if d := node.Diff(observe(img, e.ids), e.ref(worlds[len(ops)-1]), 5); len(d) > 0 {
-				c.Violation("recovered-run-differs", "crash at commit %d (op %d %s) + restart + rest of script: final node differs from the uninterrupted one:\n%v", k, i, ops[i], d)
+			if d := node.Diff(e.observe(img), e.ref(worlds[len(ops)-1]), 5); len(d) > 0 {
+				c.Violation("recovered-run-differs", "crash %s commit %d (op %d %s) + restart + rest of script: final node differs from the uninterrupted one:\n%v", when, k, i, ops[i], d)
 			}
 		}
+		crash(false)
+		if e.pebble {
+			crash(true)
+		}
 		// ================= (b) commit k fails with an error; the SAME Blockchain object continues
-		{
-			fs := fault.New(e.freshDB())
+		func() {
+			inner, done := e.freshStore()
+			defer done()
+			fs := newFstore(inner)
 			fs.FailAt = k
 			nd := node.New(e.newState, fs, u.Net)
 			var failedErr error
@@ -355,7 +463,7 @@ func runCase(rt *rapid.T, c *stats.Case) {
 				nd.Reopen() // apply() returned before reopening
 			}
 			// after the failed call the same object answers as the on-disk chain does (= state before the op)
-			if d := node.Diff(observe(nd, e.ids), e.ref(before(i)), 5); len(d) > 0 {
+			if d := node.Diff(e.observe(nd), e.ref(before(i)), 5); len(d) > 0 {
 				c.Violation("memory-disagrees-with-disk-after-failed-write", "commit %d failed during op %d %s (%s backend); the same Blockchain object now differs from the chain before the op (which is what is on disk):\n%v", k, i, ops[i], nd.Backend(), d)
 			}
 			if ops[i].kind == "store" || ops[i].kind == "revert" {
@@ -369,13 +477,13 @@ func runCase(rt *rapid.T, c *stats.Case) {
 					c.Violation("op-failed-after-failed-write", "after commit %d failed during op %d %s, RevertHead failed: %v", k, i, ops[i], err)
 				}
 				w2 := world{blocks: wb.blocks[:len(wb.blocks)-1], l1: wb.l1}
-				if d := node.Diff(observe(nd, e.ids), e.ref(w2), 5); len(d) > 0 {
+				if d := node.Diff(e.observe(nd), e.ref(w2), 5); len(d) > 0 {
 					c.Violation("memory-disagrees-with-disk-after-failed-write", "commit %d failed during op %d %s, then the head was reverted: node differs from the chain without that head:\n%v", k, i, ops[i], d)
 				}
 				if err := nd.Store(last); err != nil {
 					c.Violation("op-failed-after-failed-write", "after commit %d failed during op %d %s and a revert of the head, storing block %d again failed: %v", k, i, ops[i], last.Num(), err)
 				}
-				if d := node.Diff(observe(nd, e.ids), e.ref(wb), 5); len(d) > 0 {
+				if d := node.Diff(e.observe(nd), e.ref(wb), 5); len(d) > 0 {
 					c.Violation("memory-disagrees-with-disk-after-failed-write", "commit %d failed during op %d %s, head reverted and stored again: node differs from the chain before the failed op:\n%v", k, i, ops[i], d)
 				}
 			}
@@ -385,10 +493,10 @@ func runCase(rt *rapid.T, c *stats.Case) {
 					c.Violation("retry-failed", "after commit %d failed during op %d %s, op %d %s (retry/continuation) failed: %v", k, i, ops[i], j, ops[j], err)
 				}
 			}
-			if d := node.Diff(observe(nd, e.ids), e.ref(worlds[len(ops)-1]), 5); len(d) > 0 {
+			if d := node.Diff(e.observe(nd), e.ref(worlds[len(ops)-1]), 5); len(d) > 0 {
 				c.Violation("retried-run-differs", "failed commit %d (op %d %s) + retry + rest of script: final node differs from the uninterrupted one:\n%v", k, i, ops[i], d)
 			}
-		}
+		}()
 	}
 	if multi {
 		c.Label("has-multi-commit-op")
@@ -398,7 +506,7 @@ func runCase(rt *rapid.T, c *stats.Case) {
 		for _, o := range ops {
 			s = append(s, o.String())
 		}
-		return map[string]any{"ops": s, "commits": W, "fault_points": ks, "backend": n0.Backend(), "base": e.baseN}
+		return map[string]any{"ops": s, "commits": W, "fault_points": ks, "backend": n0.Backend(), "base": e.baseN, "store": map[bool]string{true: "pebblev2", false: "memory"}[e.pebble], "large_classes": len(e.big), "largest_commit_bytes": fs.MaxBatchBytes}
 	})
 }
 
@@ -407,6 +515,6 @@ var _ db.KeyValueStore = (*fault.Store)(nil)
 
 func TestPropCrashAndFailedCommit(t *testing.T) {
 	stats.Check(t, stats.Budget{Quick: 10, Thorough: 25},
-		"operation scripts (4-10 ops from store/revert/set L1 head/persist filter snapshot/graceful/ungraceful restart) over generated chains, optionally on the 8188-block base so stores cross the real index-window rollover; the script runs once uninterrupted to count committed writes W, then for k in 1..W (quick: 3 drawn k per case; thorough: all): (a) crash after commit k -> fresh Blockchain on the frozen image must equal (whole Reader API, state at every block, tries' roots, per-address events) a node at the chain before or after the interrupted op, then finish the script and equal the uninterrupted final node; (b) commit k fails -> the call returns an error, the SAME object equals the chain before the op, the retry and the rest of the script succeed and end equal; non-trivial = the fault hit a store or revert (commit carrying a running-filter mutation)",
+		"operation scripts (4-10 ops from store/revert/set L1 head/persist filter snapshot/graceful/ungraceful restart) over generated chains, optionally on the 8188-block base so stores cross the real index-window rollover; the script runs once uninterrupted to count committed writes W, then for k in 1..W (quick: 3 drawn k per case; thorough: all): (a) crash after commit k -> fresh Blockchain on the frozen image must equal (whole Reader API, state at every block, tries' roots, per-address events) a node at the chain before or after the interrupted op, then finish the script and equal the uninterrupted final node; (b) commit k fails -> the call returns an error, the SAME object equals the chain before the op, the retry and the rest of the script succeed and end equal; about a fifth of the cases run on a real Pebble v2 store (scratch directory, crash image = Pebble checkpoint of the real store opened as a new store, references on Pebble too) and one of their first two stores declares 2-4 Sierra classes of 3.5-3.9 MB with valid hashes at once, so that the batch of that Store holds 7-15 MB; its commit is always a fault point and on Pebble every fault point is also run as (a') crash on the way INTO commit k (batch complete, Write never called): the image must be the chain before or after the op, and exactly the chain before it when k is the op's first commit; the head state's answers about the large classes (definition intact, CASM hashes) are part of every observation; non-trivial = the fault hit a store or revert (commit carrying a running-filter mutation)",
 		runCase)
 }
